@@ -17,7 +17,7 @@ def sweepOf (cols : List (List K)) : List (List K) × List K :=
   (List.range m).foldl (givStep sqrt isZ) (padCols m cols, normb :: List.replicate n 0)
 
 theorem dgCore_eq :
-    dgCore (Ops.ofModule B AH M e) sqrt (fun a => |a|) small isZ n m b normb =
+    dgCore (Ops.ofModule B AH M e) (fun v a => (1 / a) • v) sqrt (fun a => |a|) small isZ n m b normb =
       combO (Ops.ofModule B AH M e) ((0 : K) • b)
         ((utSolve (fun a => |a|) small (sweepOf sqrt n m normb (arnSeq B AH M e sqrt small m b normb m).cols).1
           (sweepOf sqrt n m normb (arnSeq B AH M e sqrt small m b normb m).cols).2 m []).take
@@ -44,7 +44,7 @@ theorem dgCore_solves (hm : 1 ≤ m) (hmn : m ≤ n)
     (hfull : ∀ w : V, (∀ v ∈ (arnSeq B AH M e sqrt small m b normb (m - 1)).vs, e.a v w = 0) → w = 0)
     (hdiag : ∀ i, i < m → small |hent (sweepOf sqrt n m normb (arnSeq B AH M e sqrt small m b normb m).cols).1 i i|
       = false) :
-    B (dgCore (Ops.ofModule B AH M e) sqrt (fun a => |a|) small isZ n m b normb) = b := by
+    B (dgCore (Ops.ofModule B AH M e) (fun v a => (1 / a) • v) sqrt (fun a => |a|) small isZ n m b normb) = b := by
   rw [dgCore_eq]
   obtain ⟨f1, f2, _, f4, f5, f6, f7⟩ :=
     arn_final B AH M e sqrt small m b normb hdef hsq hsq0 hsm hb hnb0 hnb hm hfull
